@@ -3,6 +3,8 @@
 
 use super::*;
 
+pub use super::entry::InscriptionEntry;
+
 /// A UTXO entry decoded with the index's own parser.
 #[derive(Debug, Clone, PartialEq, Eq)]
 pub struct VerifUtxo {
@@ -11,6 +13,21 @@ pub struct VerifUtxo {
   pub sat_ranges: Option<Vec<(u64, u64)>>,
   pub script_pubkey: Option<Vec<u8>>,
   pub inscriptions: Option<Vec<(u32, u64)>>,
+}
+
+/// The inscription tables, decoded (sequence-number order where applicable).
+#[derive(Debug, Clone, Default)]
+pub struct VerifInscriptionTables {
+  pub entries: Vec<InscriptionEntry>,
+  pub satpoints: Vec<(u32, SatPoint)>,
+  pub id_to_sequence_number: Vec<(InscriptionId, u32)>,
+  pub number_to_sequence_number: Vec<(i32, u32)>,
+  pub sat_to_sequence_number: Vec<(u64, u32)>,
+  pub children: Vec<(u32, u32)>,
+  pub collection_to_latest_child: Vec<(u32, u32)>,
+  pub latest_child_to_collection: Vec<(u32, u32)>,
+  pub height_to_last_sequence_number: Vec<(u32, u32)>,
+  pub statistics: Vec<(u64, u64)>,
 }
 
 macro_rules! dump_table {
@@ -120,6 +137,93 @@ impl Index {
     }
 
     Ok(out)
+  }
+
+  /// All inscription tables, decoded, from one read transaction.
+  pub fn verif_inscription_tables(&self) -> Result<VerifInscriptionTables> {
+    let rtx = self.database.begin_read()?;
+    let mut tables = VerifInscriptionTables::default();
+
+    for result in rtx.open_table(SEQUENCE_NUMBER_TO_INSCRIPTION_ENTRY)?.iter()? {
+      let (_, value) = result?;
+      tables.entries.push(InscriptionEntry::load(value.value()));
+    }
+
+    for result in rtx.open_table(SEQUENCE_NUMBER_TO_SATPOINT)?.iter()? {
+      let (key, value) = result?;
+      tables
+        .satpoints
+        .push((key.value(), SatPoint::load(*value.value())));
+    }
+
+    for result in rtx.open_table(INSCRIPTION_ID_TO_SEQUENCE_NUMBER)?.iter()? {
+      let (key, value) = result?;
+      tables
+        .id_to_sequence_number
+        .push((InscriptionId::load(key.value()), value.value()));
+    }
+
+    for result in rtx
+      .open_table(INSCRIPTION_NUMBER_TO_SEQUENCE_NUMBER)?
+      .iter()?
+    {
+      let (key, value) = result?;
+      tables
+        .number_to_sequence_number
+        .push((key.value(), value.value()));
+    }
+
+    for result in rtx.open_table(HEIGHT_TO_LAST_SEQUENCE_NUMBER)?.iter()? {
+      let (key, value) = result?;
+      tables
+        .height_to_last_sequence_number
+        .push((key.value(), value.value()));
+    }
+
+    for result in rtx
+      .open_table(COLLECTION_SEQUENCE_NUMBER_TO_LATEST_CHILD_SEQUENCE_NUMBER)?
+      .iter()?
+    {
+      let (key, value) = result?;
+      tables
+        .collection_to_latest_child
+        .push((key.value(), value.value()));
+    }
+
+    for result in rtx.open_table(STATISTIC_TO_COUNT)?.iter()? {
+      let (key, value) = result?;
+      tables.statistics.push((key.value(), value.value()));
+    }
+
+    for result in rtx.open_multimap_table(SAT_TO_SEQUENCE_NUMBER)?.iter()? {
+      let (key, values) = result?;
+      for value in values {
+        tables
+          .sat_to_sequence_number
+          .push((key.value(), value?.value()));
+      }
+    }
+
+    for result in rtx.open_multimap_table(SEQUENCE_NUMBER_TO_CHILDREN)?.iter()? {
+      let (key, values) = result?;
+      for value in values {
+        tables.children.push((key.value(), value?.value()));
+      }
+    }
+
+    for result in rtx
+      .open_multimap_table(LATEST_CHILD_SEQUENCE_NUMBER_TO_COLLECTION_SEQUENCE_NUMBER)?
+      .iter()?
+    {
+      let (key, values) = result?;
+      for value in values {
+        tables
+          .latest_child_to_collection
+          .push((key.value(), value?.value()));
+      }
+    }
+
+    Ok(tables)
   }
 
   /// Ids of the persistent savepoints currently held by the database.
